@@ -154,7 +154,7 @@ func loadEngine(repo string) (*Engine, error) {
 		}
 	}
 	// contract files
-	e.cs = &ContractSet{Pures: map[string]*PureFunc{}}
+	e.cs = &ContractSet{Pures: map[string]*PureFunc{}, Uninterp: map[string]*Uninterp{}}
 	for _, p := range pkgs {
 		if !strings.HasPrefix(p.PkgPath, modulePath) {
 			continue
@@ -215,6 +215,18 @@ func (e *Engine) lookupPure(pkg *types.Package, name string) *PureFunc {
 	// shared pures of the root package are visible everywhere
 	if pf, ok := e.cs.Pures[modulePath+"."+name]; ok {
 		return pf
+	}
+	return nil
+}
+
+func (e *Engine) lookupUninterp(pkg *types.Package, name string) *Uninterp {
+	if pkg != nil {
+		if u, ok := e.cs.Uninterp[pkg.Path()+"."+name]; ok {
+			return u
+		}
+	}
+	if u, ok := e.cs.Uninterp[modulePath+"."+name]; ok {
+		return u
 	}
 	return nil
 }
@@ -445,6 +457,16 @@ func (e *Engine) newWorld() (*World, []string) {
 	}
 	for _, t := range order {
 		w.addGhostFields(t, byType[t])
+	}
+	for _, ex := range e.cs.Exempt {
+		pkg := e.tpkgs[ex.PkgPath]
+		if tn, ok := pkg.Scope().Lookup(ex.TypeName).(*types.TypeName); ok && isStructType(tn.Type()) {
+			for _, f := range w.structInfo(tn.Type()).Fields {
+				w.exemptFID[f.FID] = true
+			}
+		} else {
+			errs = append(errs, "frame-exempt: unknown struct type "+ex.TypeName)
+		}
 	}
 	return w, errs
 }
